@@ -1,0 +1,22 @@
+//go:build verif
+
+package data
+
+// Machine-checked contracts for the govc verifier (/verif). This file is comment-only and is
+// compiled only with the "verif" build tag.
+
+//@ props C09 C13
+
+// The decoder closures report a malformed message by panicking with the error; they run only
+// inside qp.BuildMap / qp.Map / qp.List, which recover every panic into a returned error
+// (inventory obligation "decoder-panics-confined").
+//@ func data.DecodeUnixFSData$1
+//@ may_panic
+//@ func data.DecodeUnixTime$1
+//@ may_panic
+//@ func data.DecodeUnixFSMetadata$1
+//@ may_panic
+//@ func data.consumeUnixFSData$1
+//@ may_panic
+//@ func data.consumeUnixFSData$2
+//@ may_panic
